@@ -40,7 +40,10 @@ func renderRule(r rules.Rule) string {
 	}
 }
 
-var hostsIPs = []string{"0.0.0.0", "127.0.0.1", "192.168.1.1", "10.0.0.255", "::", "::1", "fe80::1", "2001:db8::1", "::ffff:1.2.3.4", "::ffff:0102:0304", "1.2.3.4", "255.255.255.255"}
+var hostsIPs = []string{"0.0.0.0", "127.0.0.1", "192.168.1.1", "10.0.0.255", "::", "::1", "fe80::1", "2001:db8::1", "::ffff:1.2.3.4", "::ffff:0102:0304", "1.2.3.4", "255.255.255.255",
+	// fully written-out forms: up to 45 characters without a zone
+	"0000:0000:0000:0000:0000:0000:0000:0001", "fe80:0000:0000:0000:0000:0000:0000:0001", "0000:0000:0000:0000:0000:ffff:192.168.100.200",
+	"2001:0db8:0000:0000:0000:0000:192.168.100.200", "0:0:0:0:0:ffff:192.168.100.200", "2001:0db8:85a3:0000:0000:8a2e:0370:7334"}
 var hostsNames = []string{"example.org", "a.example.org", "localhost", "ads.example.net", "x", "tracker.io", "test.com", "foo.co.uk", "my-host", "under_score.example", "UPPER.example.org", "1.2.3.4", "a.b.c.d.e", "xn--e1afmkfd.xn--p1ai", "example.or", "example.orgx"}
 
 func genHostsLine(g *Gen) (line, ip string, names []string) {
